@@ -299,9 +299,46 @@ func c15Worlds() []c15World {
 	u5 := c15Req{name: "rest-download-stream", form: wire.REST, close: true, respond: echo(`{"body":{"contentType":"x/y","data":"`+base64.StdEncoding.EncodeToString([]byte(strings.Repeat("part-1.", 40)))+`"}}`, `{"body":{"data":"`+base64.StdEncoding.EncodeToString([]byte(strings.Repeat("part-2.", 4)))+`"}}`), spec: func() *drive.ReqSpec {
 		return &drive.ReqSpec{Method: "GET", Target: "/v1/down/d1", Header: http.Header{}, ContentLength: -1, NoBody: true}
 	}}
-	w7.history = []c15Req{u1, u2, u3, u4, u5}
-	w7.probes = []c15Req{u1, u3, u4, u5}
-	return []c15World{w1, w2, w3, w4, w5, w6, w7}
+	// the same method through its second binding, which has no response_body: the whole message as JSON
+	u6 := c15Req{name: "rest-blob-meta (same method, binding without response_body)", form: wire.REST, close: true, respond: echo(`{"name":"f1","num":7,"body":{"contentType":"a/b","data":"`+base64.StdEncoding.EncodeToString([]byte("meta"))+`"}}`), spec: func() *drive.ReqSpec {
+		return &drive.ReqSpec{Method: "GET", Target: "/v1/blobmeta/f1", Header: http.Header{}, ContentLength: -1, NoBody: true}
+	}}
+	w7.history = []c15Req{u1, u2, u3, u4, u5, u6}
+	w7.probes = []c15Req{u1, u3, u4, u5, u6}
+	// world 8: REST client and REST backend that differ only in compression, with HttpBody
+	// payloads: nothing is re-encoded, bodies are only inflated / deflated
+	w8 := c15World{name: "REST to REST, HttpBody payloads, compression differs (target REST, no compression)", cfg: world.Config{Protocols: []vanguard.Protocol{vanguard.ProtocolREST}, NoCompress: true, MaxMsg: 20000}}
+	restRaw := func(name, target string, reqGzip bool, up string, respGzip bool, down string) c15Req {
+		q := c15Req{name: name, form: wire.REST, close: true, spec: func() *drive.ReqSpec {
+			body := []byte(up)
+			h := http.Header{"Content-Type": {"application/octet-stream"}, "Accept-Encoding": {"gzip"}}
+			if reqGzip {
+				body = wire.GzipCompress(body)
+				h.Set("Content-Encoding", "gzip")
+			}
+			return &drive.ReqSpec{Method: "POST", Target: target, Header: h, ContentLength: -2, Body: drive.NewBody(body)}
+		}}
+		q.raw = func(b *world.Backend, w http.ResponseWriter, r *http.Request) {
+			b.Seen.ReadBody(r.Body, nil)
+			out := []byte(down)
+			w.Header().Set("Content-Type", "image/png")
+			if respGzip {
+				out = wire.GzipCompress(out)
+				w.Header().Set("Content-Encoding", "gzip")
+			}
+			w.WriteHeader(200)
+			_, _ = w.Write(out)
+		}
+		return q
+	}
+	long := strings.Repeat("0123456789abcdef", 400)
+	x1 := restRaw("rest-raw-gzip-both-6400", "/v1/raw", true, strings.Repeat("upload-bytes.", 30), true, long)
+	x2 := restRaw("rest-raw-gzip-request-only", "/v1/raw", true, strings.Repeat("UP.", 700), false, "tiny download")
+	x3 := restRaw("rest-raw-gzip-response-only", "/v1/raw", false, "tiny upload", true, strings.Repeat("fedcba9876543210", 100))
+	x4 := restRaw("rest-blob-gzip-both", "/v1/blob/f9", true, strings.Repeat("blob-upload.", 100), true, strings.Repeat("blob-download.", 20))
+	w8.history = []c15Req{x1, x2, x3, x4}
+	w8.probes = []c15Req{x1, x2, x3, x4}
+	return []c15World{w1, w2, w3, w4, w5, w6, w7, w8}
 }
 
 type protoMessage = proto.Message
